@@ -716,6 +716,21 @@ def bterm(x):
     raise TypeError("not a boolean term: %r" % (x,))
 
 
+def conj(*xs):
+    """conjunction of clauses (Python bools, symbolic booleans, generators) WITHOUT deciding them:
+    contract clauses must not fork the path they are checked on"""
+    ts = []
+    for x in xs:
+        if isinstance(x, (list, tuple)) or hasattr(x, "__next__"):
+            x = conj(*list(x))
+        t = bterm(x)
+        if z3.is_false(t):
+            return SV(z3.BoolVal(False), "b")
+        if not z3.is_true(t):
+            ts.append(t)
+    return SV(z3.And(*ts) if ts else z3.BoolVal(True), "b")
+
+
 def assume(c):
     p = cur()
     t = bterm(c)
